@@ -439,7 +439,10 @@ def encodeDop : (fuel : Nat) → Dop → PVal → EncM Unit
     | some bs =>
       let s ← getS
       let actual := s.cursorByte - origPos
-      if actual < bs then
+      -- (fix c01-byte-size-structure-content-too-long) "Attempted to encode too large instance of structure": the decoder
+      -- rejects such a PDU
+      if actual > bs then odxraise .encode
+      else if actual < bs then
         -- pad the structure to BYTE-SIZE (relative to its own first byte); padding counts as "used"
         let endPos := origPos + bs
         let n := endPos - s.msg.length
@@ -562,15 +565,23 @@ def encodeDop : (fuel : Nat) → Dop → PVal → EncM Unit
           encodeDct dct (.int internal)
         | _ => raise .unmodelled
 
-/-- the item loop shared by the dynamic fields: the last item inherits `is_end_of_pdu` -/
+/-- the item loop shared by the dynamic fields: the last item inherits `is_end_of_pdu`.
+    (fix c04-field-item-consumes-nothing: an item that leaves the cursor where it was is an `odxraise`d EncodeError —
+     "The items of … do not consume any data" — as in the three decoders) -/
 def encodeItems (item : Dop) (origEop : Bool) : (fuel : Nat) → List PVal → EncM Unit
   | 0, _ => raise .unmodelled
   | _+1, [] => pure ()
   | fuel+1, [x] => do
     modifyS fun s => { s with isEndOfPdu := origEop }
+    let s0 ← getS                                                 -- orig_cursor = encode_state.cursor_byte_position
     encodeDop fuel item x
+    let s1 ← getS
+    if s1.cursorByte ≤ s0.cursorByte then odxraise .encode
   | fuel+1, x :: y :: rest => do
+    let s0 ← getS
     encodeDop fuel item x
+    let s1 ← getS
+    if s1.cursorByte ≤ s0.cursorByte then odxraise .encode
     encodeItems item origEop fuel (y :: rest)
 
 /-- the item loop of a static field: every item is padded to ITEM-BYTE-SIZE -/
